@@ -412,6 +412,31 @@ theorem useful_answer_resets_requesting_audience (H : Hash) (s : Store) (now : I
   obtain ⟨h3, h4⟩ := after_success_backoff_restarts H s.cfg _ k hwf now' p w
   exact ⟨h1, h2, h3, h4⟩
 
+/-! ## the well-formedness hypothesis holds for every wire-born name -/
+
+/-- **Names decoded from the wire are rooted.** Whatever bytes the labels
+hold (dots, backslashes, spaces, control and high bytes — all escaped by the
+decoder), the presentation form `writeWireName` / the message decoder produces
+ends in an unescaped dot, before and after case folding. So the hypothesis
+`isFqdn (canonicalName name)` of `zone_hit_is_labelwise_ancestor`,
+`success_resets`, `after_success_backoff_restarts` and
+`useful_answer_resets_requesting_audience` is discharged for every question
+that reached the server in a DNS message. -/
+theorem wire_born_names_are_wellformed (w : Wire) (p : Str) (h : wirePres w = some p) :
+    isFqdn (canonicalName p) = true ∧ isFqdn (canonicalName (foldStr p)) = true :=
+  ⟨(wirePres_wellformed w p h).2.1, (wirePres_wellformed w p h).2.2⟩
+
+/-- `success_resets` and the label-wise ancestry without any side condition,
+for questions whose name came off the wire. -/
+theorem wire_born_question_guarantees (H : Hash) (t : Table) (w : Wire) (p : Str) (hw : wirePres w = some p)
+    (k : QKey) (hk : k.name = p) (now : Int) :
+    (lookup H (resetMatching H t k).1 now k = none ∧ retryKey H (resetMatching H t k).1 now k = none) ∧
+    (∀ e, lookup H t now k = some e → e.kind = .zone →
+        e.z.qclass = k.qclass ∧ labels e.z.zone <:+ labels (canonicalName k.name)) := by
+  have hwf : isFqdn (canonicalName k.name) = true := by
+    rw [hk]; exact (wire_born_names_are_wellformed w p hw).1
+  exact ⟨success_resets H t k hwf now, fun e he hz => zone_hit_is_labelwise_ancestor H t now k e hwf he hz⟩
+
 /-! ## request-local failures never become shared state -/
 
 /-- **Local causes are never shared (question state).** If the request was
@@ -725,6 +750,56 @@ theorem single_probe_key (H : Hash) (t : Table) (now : Int) :
     rw [e1, e2, hc1, hc2, hc]
 
 
+/-- **One probe per retained generation.** When several requests arrive
+together (every elected leader still running) with the switch on, and each of
+them misses the failure cache and has the SAME closest retained zone state on
+its path in one class, `Cache.ServeDNS` derives one single-flight key for all
+of them — that zone's retry key — so exactly one leader is elected, whatever
+their names below the zone, types, CD bits and ECS audiences. -/
+theorem probe_cohort_elects_one_leader (H : Hash) (s : Store) (now : Int) (ks : List QKey) (z : Str) (cls : Nat)
+    (hen : s.disabled = false) (hne : ks ≠ [])
+    (hmiss : ∀ k ∈ ks, lookup H s.tab now k = none)
+    (hz : ∀ k ∈ ks, k.qclass = cls ∧ firstStored H s.tab cls (walkZones (normalizeQ k).name) = some z) :
+    s.probeBatch H now ks = (1, 0) := by
+  have hlf : ∀ k ∈ ks, (s.lookupFailure H now k).isNone = true := by
+    intro k hk; simp [Store.lookupFailure, hen, hmiss k hk]
+  have hfil : ks.filter (fun k => (s.lookupFailure H now k).isNone) = ks :=
+    List.filter_eq_self.mpr hlf
+  have hkey : ∀ k ∈ ks, s.dedupKey H now k = .retry (H.z (normalizeZ ⟨z, cls⟩)) := by
+    intro k hk
+    obtain ⟨hc, hfs⟩ := hz k hk
+    have hc' : (normalizeQ k).qclass = cls := hc
+    have := retryKey_of_inactive_zone H s.tab now k z (hmiss k hk) (by rw [hc']; exact hfs)
+    simp [Store.dedupKey, Store.failureRetryKey, hen, this, hc']
+  unfold Store.probeBatch
+  simp only [hfil, Nat.sub_self]
+  congr 1
+  apply distinctCount_all_eq (.retry (H.z (normalizeZ ⟨z, cls⟩)))
+  · intro h; exact hne (List.map_eq_nil_iff.mp h)
+  · intro x hx
+    obtain ⟨k, hk, rfl⟩ := List.mem_map.mp hx
+    exact hkey k hk
+
+/-- **All valid min/max settings reach the running cache.** The failure cache
+inside a `Cache` built by `cache.New` runs with exactly the configured bounds
+whenever they are a configuration `NewFailureCache` accepts — no other
+setting takes part — and with valid bounds (the 5 s / 5 min defaults)
+otherwise. -/
+theorem cacheNew_effective_bounds (size i m : Int) :
+    (cacheNewCfg size i m).Valid ∧
+    ∀ c, newCfg size i m = .ok c → cacheNewCfg size i m = c := by
+  constructor
+  · unfold cacheNewCfg
+    split
+    · rename_i c hc; exact (newCfg_valid _ i m c hc).1
+    · unfold Cfg.Valid defaultInitial defaultMax second ceiling; decide
+  · intro c hc
+    have hs := (newCfg_valid size i m c hc).2.1
+    have : (if size = 0 then (4096 : Int) else size) = size := by
+      split <;> omega
+    unfold cacheNewCfg
+    rw [this, hc]
+
 /-! ## non-vacuity: concrete, non-trivial states satisfying the hypotheses -/
 
 section Examples
@@ -816,6 +891,22 @@ example : retryKey H1 (recordZone H1 cfg0 [] 0 ⟨exampleCom, 1⟩ 2 0).1 (5 * s
     = retryKey H1 (recordZone H1 cfg0 [] 0 ⟨exampleCom, 1⟩ 2 0).1 (5 * second) ⟨[97, 46] ++ wwwExampleCom, 28, 1, true, none⟩ := by decide
 example : (retryKey H1 (recordZone H1 cfg0 [] 0 ⟨exampleCom, 1⟩ 2 0).1 (5 * second) (qA wwwExampleCom)).isSome = true := by decide
 example : retryKey H1 (recordZone H1 cfg0 [] 0 ⟨exampleCom, 1⟩ 2 0).1 (5 * second - 1) (qA wwwExampleCom) = none := by decide
+
+-- probe_cohort_elects_one_leader: three clients (two ECS audiences, other names / types / CD) behind one expired zone
+example : (Store.probeBatch H1 ⟨false, cfg0, (recordZone H1 cfg0 [] 0 ⟨exampleCom, 1⟩ 2 0).1⟩ (5 * second)
+    [qA wwwExampleCom, ⟨[97, 46] ++ wwwExampleCom, 28, 1, true, some ⟨false, 24, 3405803776⟩⟩,
+     ⟨exampleCom, 16, 1, false, some ⟨false, 16, 167837696⟩⟩]) = (1, 0) := by decide
+-- … while unrelated questions elect one leader each, and inside the backoff everybody is served
+example : (Store.probeBatch H1 ⟨false, cfg0, []⟩ 0 [qA wwwExampleCom, qA notExampleCom, qA wwwMixed]) = (2, 0) := by decide
+example : (Store.probeBatch H1 ⟨false, cfg0, (recordZone H1 cfg0 [] 0 ⟨exampleCom, 1⟩ 2 0).1⟩ 1
+    [qA wwwExampleCom, qA exampleCom]) = (0, 2) := by decide
+-- cacheNew_effective_bounds: an operator's 30 s / 2 min survives; a rejected pair falls back to 5 s / 5 min
+example : cacheNewCfg 4096 (30 * second) (120 * second) = ⟨30 * second, 120 * second⟩ := by rfl
+example : cacheNewCfg 0 (30 * second) (20 * second) = ⟨5 * second, 300 * second⟩ := by rfl
+
+-- wire_born_names_are_wellformed: 3"a.b"2"c\\"0 decodes to  a\.b.c\\.  (escaped dot, escaped backslash, rooted)
+example : wirePres [3, 97, 46, 98, 2, 99, 92, 0] = some [97, 92, 46, 98, 46, 99, 92, 92, 46] := by decide
+example : isFqdn (canonicalName [97, 92, 46, 98, 46, 99, 92, 92, 46]) = true := by decide
 
 end Examples
 
